@@ -223,6 +223,8 @@ def run(ctx: Ctx) -> None:
         rng = ctx.subrng("script", i)
         gen_scripts.append(g.gen_script(rng, rng.randint(4, 20), in_domain=True, distinct_prios=rng.random() < 0.7))
     ctx.compare("Matryoshka", gen_scripts, [g.run_script_impl(s)[1] for s in gen_scripts], what="Matryoshka scripts")
+    from . import powerpath  # full-stack stage: the same property through the public pool API (real actors)
+    powerpath.run_stage(ctx, {"C04-report"}, n_quick=60, n_thorough=800)
 
 
 def replay(ctx: Ctx, data: dict) -> None:
